@@ -293,8 +293,12 @@ def c11_scenario(rep, binary, workdir, rng, frame_maker, attempt=0):
         for _ in range(6):
             h, addr, decoys = frame_maker(rng, df)
             frames.append((df, bytes.fromhex(h), addr, decoys))
+    # keep the frames the decoder accepts (asked through the driver of the same binary: random TC31 / Comm-B bits may be refused)
+    from common import drive
+    verdicts = drive(binary, "filter", [{"frame": f[1].hex()} for f in frames])
+    frames = [f for f, v in zip(frames, verdicts) if v.get("decoded")]
     some = rng.sample(frames, 8)
-    df_filter = rng.choice([None, sorted(set(rng.sample(dfs, 3))), [17], dfs])
+    df_filter = rng.choice([None, sorted(set(rng.sample(dfs, 3))), [17], dfs, [rng.choice(dfs)], rng.sample(dfs, 2), [rng.choice(dfs)]])
     ac_filter = rng.choice([None, [f[2] for f in some], [f[2] for f in some[:2]] + [f[3][0] for f in some[2:5] if f[3]]])
     out_file = os.path.join(workdir, f"c11sys.{os.getpid()}.jsonl")
     if os.path.exists(out_file):
@@ -361,9 +365,17 @@ def c11_scenario(rep, binary, workdir, rng, frame_maker, attempt=0):
         rep.cls("system:file==stdout")
     # completeness: frames whose intended df / address pass the filters must come out (retry once before calling it)
     missing = []
+    sent_at = {f.hex(): i for i, f in enumerate(order)}
+    last_shown = max([sent_at[h] for h in shown if h in sent_at] + [-1])
+    trailer_shown = any(t.hex() in shown for t in tr) if (want_df is None or "17" in want_df) and want_ac is None else False
     for df, fr, addr, _ in frames:
         if (want_df is None or str(df) in want_df) and (want_ac is None or "%06x" % addr in want_ac) and fr.hex() not in shown:
             missing.append((df, fr.hex(), "%06x" % addr))
+            # one feed: frames arrive, and their windows close, in the order they were sent. If a frame sent later has
+            # come out, this one's window had closed before: its absence is a verdict of the filter, not a matter of time
+            if sent_at[fr.hex()] < last_shown or trailer_shown:
+                rep.violation(f"C11:system:wrongly-dropped:DF{df}",
+                              f"jet1090 {' '.join(args[4:])} never printed {fr.hex()} (DF{df}, address {addr:06x}) although frames sent after it came out", replay)
     rep.cls("system:filter:df=" + ("absent" if df_filter is None else "set") + ":ac=" + ("absent" if ac_filter is None else "set"))
     if missing:
         if attempt == 0:
